@@ -13,7 +13,7 @@ NA = {
 checks = []
 for p in props:
     pid = p["id"]
-    if pid not in plans.PLANS:
+    if pid not in plans.PLANS or plans.PLANS[pid].get("disabled"):
         continue
     pl = plans.PLANS[pid]
     checks.append({
@@ -30,7 +30,7 @@ for p in props:
 na = []
 for p in props:
     pid = p["id"]
-    if pid in plans.PLANS:
+    if pid in plans.PLANS and not plans.PLANS[pid].get("disabled"):
         continue
     na.append({"property_id": pid, "reason": NA.get(pid, "check not built yet in this session (work in progress; see DESIGN.md section 7 for the planned scenario)")})
 m = {
